@@ -108,6 +108,17 @@ class Sym(object):
             return
         self.job.covers[label] = self.job.covers.get(label, 0) + 1
 
+    def steps(self):
+        """steps executed on this path so far (interpreted statements, calls, comprehension iterations)"""
+        return self.I.path_steps
+
+    def step_limit(self, extra):
+        """from here on the path may execute at most `extra` further steps; more raises CostLimitExceeded (None: no limit)"""
+        self.I.step_limit = None if extra is None else self.I.path_steps + extra
+
+    def note_max(self, key, value):
+        self.job.notes[key] = max(self.job.notes.get(key, value), value)
+
     def note(self, key, value):
         self.job.notes[key] = value
 
